@@ -178,8 +178,9 @@ CHECKS = {
         "equality class of each result compared exactly with Model.C15.trace (repaired and pinned variants); any unmodelled changed "
         "attribute is a violation. Non-equilibrium Foerster, field-driven propagation and get_kernel are not exercised. Static tie: the abstract "
         "interpreter of harness/translate_c15.py, its per-shape branch conditions and its whitelists (library functions, tensor "
-        "constructors with declared cache effects, basis/unit contexts, the caller's own hfce function; printed into the generated file) join the "
-        "trusted base. A second pass of the interpreter treats every raise statement as an exit (refused arguments): gen_refusals_leave_inputs shows no "
+        "constructors that cannot run or only build result containers, basis/unit contexts, the caller's own hfce function; printed into the generated file) join the "
+        "trusted base; the eight tensor constructors the shapes use are analysed, not assumed (harness/translate_c15ctor.py: writes through ham / sbi equal the declared effects, gen_ctor_writes_as_assumed). "
+        "A second pass of the interpreter treats every raise statement as an exit (refused arguments): gen_refusals_leave_inputs shows no "
         "input field changed there; the check also makes such refused calls on real objects.",
    design="7/C15", technique="Coq proof (effect model, symbolic execution proved sound + reflection over all call shapes, induction over histories) + static tie: a fail-closed write-set / last-write / exposed-read analysis of the current source of the API methods (51 call shapes) compared inside Coq with the written and changed fields of the model's programs (equal written sets; changed fields within model_changed; exposed reads are inputs) + differential deep-snapshot correspondence"),
  "C18": dict(
